@@ -26,10 +26,17 @@ Definition enc_float (bits : Z) : bytes :=
 Definition zbytes (n : Z) : bytes :=
   if n <=? 0 then [] else be_enc (Z.to_nat (Z.log2 n / 8 + 1)) n.
 
-(* big.Int: BigIntConvertNone, always a tag 2 / tag 3 bignum *)
-Definition enc_big (n : Z) : bytes :=
-  if 0 <=? n then 194 :: enc_bstr (zbytes n)
-  else 195 :: enc_bstr (zbytes (-1 - n)).
+(* big.Int.  kb = true: the encoder mode of the protected bucket (BigIntConvertNone), always a tag 2 / tag 3
+   bignum.  kb = false: every other encoder (BigIntConvertShortest), a plain integer when it fits 64 bits. *)
+Definition enc_big (kb : bool) (n : Z) : bytes :=
+  if kb then
+    if 0 <=? n then 194 :: enc_bstr (zbytes n)
+    else 195 :: enc_bstr (zbytes (-1 - n))
+  else
+    if (0 <=? n) && (n <? 2 ^ 64) then enc_head 0 n
+    else if (n <? 0) && (- 2 ^ 64 <=? n) then enc_head 1 (-1 - n)
+    else if 0 <=? n then 194 :: enc_bstr (zbytes n)
+    else 195 :: enc_bstr (zbytes (-1 - n)).
 
 (* insertion sort of encoded (key,value) pairs, bytewise on the key *)
 Fixpoint insert_kv (kv : bytes * bytes) (l : list (bytes * bytes)) : list (bytes * bytes) :=
@@ -60,17 +67,29 @@ Definition enc_simple (v : Z) : res bytes :=
 Section Encoder.
   (* the encoder, the header-bucket encoders and the COSE_Signature encoder are
      mutually recursive through countersignature header values *)
-  Fixpoint enc (g : gv) {struct g} : res bytes :=
+  Fixpoint enc (kb : bool) (g : gv) {struct g} : res bytes :=
     let enc_pairs := (fix go (l : list gv) : res (list (bytes * bytes)) :=
                         match l with
                         | k :: v :: r =>
-                            let* a := enc k in let* b := enc v in let* c := go r in Acc ((a, b) :: c)
+                            let* a := enc kb k in let* b := enc kb v in let* c := go r in Acc ((a, b) :: c)
+                        | _ => Acc []
+                        end) in
+    let enc_pairs_p := (fix go (l : list gv) : res (list (bytes * bytes)) :=
+                        match l with
+                        | k :: v :: r =>
+                            let* a := enc true k in let* b := enc true v in let* c := go r in Acc ((a, b) :: c)
+                        | _ => Acc []
+                        end) in
+    let enc_pairs_u := (fix go (l : list gv) : res (list (bytes * bytes)) :=
+                        match l with
+                        | k :: v :: r =>
+                            let* a := enc false k in let* b := enc false v in let* c := go r in Acc ((a, b) :: c)
                         | _ => Acc []
                         end) in
     let enc_list := (fix go (l : list gv) : res bytes :=
                        match l with
                        | [] => Acc []
-                       | y :: r => let* a := enc y in let* b := go r in Acc (a ++ b)
+                       | y :: r => let* a := enc kb y in let* b := go r in Acc (a ++ b)
                        end) in
     match g with
     | GInt _ n => Acc (enc_int n)
@@ -81,8 +100,8 @@ Section Encoder.
     | GNil => Acc enc_null
     | GArr l => let* bs := enc_list l in Acc (enc_head 4 (len l) ++ bs)
     | GMap l => let* kvs := enc_pairs l in enc_map_of kvs
-    | GBig n => Acc (enc_big n)
-    | GTag t c => let* b := enc c in Acc (enc_head 6 t ++ b)
+    | GBig n => Acc (enc_big kb n)
+    | GTag t c => let* b := enc kb c in Acc (enc_head 6 t ++ b)
     | GBStr b => Acc (enc_bstr b)
     | GSimple v => enc_simple v
     | GFloat bits => Acc (enc_float bits)
@@ -96,14 +115,14 @@ Section Encoder.
                       else match p with
                            | None | Some [] => Acc [64]
                            | Some l => if validate_params l true
-                                       then let* kvs := enc_pairs l in let* m := enc_map_of kvs in Acc (enc_bstr m)
+                                       then let* kvs := enc_pairs_p l in let* m := enc_map_of kvs in Acc (enc_bstr m)
                                        else Rej EOther
                            end) in
           let* ub := (if 0 <? glen ru then Acc (gor ru)
                       else match u with
                            | None | Some [] => Acc [160]
                            | Some l => if validate_params l false
-                                       then let* kvs := enc_pairs l in enc_map_of kvs
+                                       then let* kvs := enc_pairs_u l in enc_map_of kvs
                                        else Rej EOther
                            end) in
           Acc ([131] ++ pb ++ ub ++ enc_bstr (gor s))
@@ -112,27 +131,27 @@ Section Encoder.
     end.
 End Encoder.
 
-Definition enc_pairs (l : list gv) : res (list (bytes * bytes)) :=
+Definition enc_pairs (kb : bool) (l : list gv) : res (list (bytes * bytes)) :=
   (fix go (l : list gv) : res (list (bytes * bytes)) :=
      match l with
-     | k :: v :: r => let* a := enc k in let* b := enc v in let* c := go r in Acc ((a, b) :: c)
+     | k :: v :: r => let* a := enc kb k in let* b := enc kb v in let* c := go r in Acc ((a, b) :: c)
      | _ => Acc []
      end) l.
 
-Definition enc_hmap (l : list gv) : res bytes := let* kvs := enc_pairs l in enc_map_of kvs.
+Definition enc_hmap (kb : bool) (l : list gv) : res bytes := let* kvs := enc_pairs kb l in enc_map_of kvs.
 
 (* ProtectedHeader.MarshalCBOR *)
 Definition enc_protected (p : option (list gv)) : res bytes :=
   match p with
   | None | Some [] => Acc [64]
-  | Some l => if validate_params l true then let* m := enc_hmap l in Acc (enc_bstr m) else Rej EOther
+  | Some l => if validate_params l true then let* m := enc_hmap true l in Acc (enc_bstr m) else Rej EOther
   end.
 
 (* UnprotectedHeader.MarshalCBOR *)
 Definition enc_unprotected (u : option (list gv)) : res bytes :=
   match u with
   | None | Some [] => Acc [160]
-  | Some l => if validate_params l false then enc_hmap l else Rej EOther
+  | Some l => if validate_params l false then enc_hmap false l else Rej EOther
   end.
 
 (* Headers.MarshalProtected / MarshalUnprotected / marshal *)
